@@ -242,6 +242,13 @@ Record conventions := mk_conv {
 
 Definition dflt (o : option name_case) : name_case := match o with Some k => k | None => Original end.
 
+(* Filters.__init__ (fix for C07-F6): every safe prefix must put a letter first among its ASCII
+   alphanumerics, else CodegenError("Safe prefix must start with a letter") *)
+Definition valid_prefix (p : str) : bool := slug_alpha p.
+Definition filters_init (cv : conventions) : bool :=
+  valid_prefix (class_prefix cv) && valid_prefix (field_prefix cv) && valid_prefix (constant_prefix cv)
+  && valid_prefix (package_prefix cv) && valid_prefix (module_prefix cv).
+
 Definition default_conventions : conventions :=
   mk_conv (dflt (case_of_value conv_class_name_case)) conv_class_name_prefix
           (dflt (case_of_value conv_field_name_case)) conv_field_name_prefix
